@@ -597,5 +597,220 @@ theorem map_const_lin (a b cf cg c : K) (hc : c = a * cf + b * cg) (f g : List K
       simp only [lin, List.zipWith_cons_cons, List.map_cons] at this ⊢
       rw [this, hc]
 
+/-! ## extension round: np.interp walk, weight image, pixel reversal, monotonicity of the conversions -/
+
+theorem absS_eq (x : K) : absS x = |x| := by
+  unfold absS
+  simp only [scalar_ofNat, Nat.cast_zero]
+  split
+  · rename_i h; rw [abs_of_neg h]
+  · rename_i h; rw [abs_of_nonneg (not_lt.mp h)]
+
+/-- the np.interp walk never goes below a lower bound of the sample values -/
+theorem interpGo_ge (lo x : K) : ∀ (rest : List (K × K)) (x0 f0 : K), x0 ≤ x → lo ≤ f0 →
+    (∀ q ∈ rest, lo ≤ q.2) → lo ≤ interpGo x x0 f0 rest := by
+  intro rest
+  induction rest with
+  | nil => intro x0 f0 _ h1 _; exact h1
+  | cons q rest ih =>
+    intro x0 f0 hx h1 hr
+    obtain ⟨x1, f1⟩ := q
+    have g1 : lo ≤ f1 := hr (x1, f1) List.mem_cons_self
+    simp only [interpGo]
+    split
+    · rename_i hlt
+      split
+      · exact h1
+      · have hd : 0 < x1 - x0 := by linarith
+        have ht0 : 0 ≤ x - x0 := by linarith
+        have ht1 : x - x0 ≤ x1 - x0 := by linarith
+        set d := x1 - x0
+        set t := x - x0
+        have e : (f1 - f0) / d * t + f0 = f0 + (f1 - f0) * (t / d) := by field_simp; ring
+        rw [e]
+        have hθ0 : 0 ≤ t / d := div_nonneg ht0 hd.le
+        have hθ1 : t / d ≤ 1 := by rw [div_le_one hd]; exact ht1
+        nlinarith
+    · rename_i hge
+      exact ih x1 f1 (not_lt.mp hge) g1 (fun q hq => hr q (List.mem_cons_of_mem _ hq))
+
+/-- ... nor above an upper bound -/
+theorem interpGo_le (hi x : K) : ∀ (rest : List (K × K)) (x0 f0 : K), x0 ≤ x → f0 ≤ hi →
+    (∀ q ∈ rest, q.2 ≤ hi) → interpGo x x0 f0 rest ≤ hi := by
+  intro rest
+  induction rest with
+  | nil => intro x0 f0 _ h1 _; exact h1
+  | cons q rest ih =>
+    intro x0 f0 hx h1 hr
+    obtain ⟨x1, f1⟩ := q
+    have g1 : f1 ≤ hi := hr (x1, f1) List.mem_cons_self
+    simp only [interpGo]
+    split
+    · rename_i hlt
+      split
+      · exact h1
+      · have hd : 0 < x1 - x0 := by linarith
+        have ht0 : 0 ≤ x - x0 := by linarith
+        have ht1 : x - x0 ≤ x1 - x0 := by linarith
+        set d := x1 - x0
+        set t := x - x0
+        have e : (f1 - f0) / d * t + f0 = f0 + (f1 - f0) * (t / d) := by field_simp; ring
+        rw [e]
+        have hθ0 : 0 ≤ t / d := div_nonneg ht0 hd.le
+        have hθ1 : t / d ≤ 1 := by rw [div_le_one hd]; exact ht1
+        nlinarith
+    · rename_i hge
+      exact ih x1 f1 (not_lt.mp hge) g1 (fun q hq => hr q (List.mem_cons_of_mem _ hq))
+
+/-- `np.interp` stays within the range of the sample values (whatever the abscissae are) -/
+theorem npInterp_bounds (lo hi x0 f0 : K) (rest : List (K × K))
+    (h : ∀ q ∈ (x0, f0) :: rest, lo ≤ q.2 ∧ q.2 ≤ hi) (x : K) :
+    lo ≤ npInterp x0 f0 rest x ∧ npInterp x0 f0 rest x ≤ hi := by
+  have h0 := h (x0, f0) List.mem_cons_self
+  unfold npInterp
+  split
+  · exact h0
+  · rename_i hx
+    exact ⟨interpGo_ge lo x rest x0 f0 (not_lt.mp hx) h0.1 (fun q hq => (h q (List.mem_cons_of_mem _ hq)).1),
+           interpGo_le hi x rest x0 f0 (not_lt.mp hx) h0.2 (fun q hq => (h q (List.mem_cons_of_mem _ hq)).2)⟩
+
+theorem npInterp_nonneg (x0 f0 : K) (rest : List (K × K)) (h : ∀ q ∈ (x0, f0) :: rest, 0 ≤ q.2) (x : K) :
+    0 ≤ npInterp x0 f0 rest x := by
+  unfold npInterp
+  split
+  · exact h (x0, f0) List.mem_cons_self
+  · rename_i hx
+    exact interpGo_ge 0 x rest x0 f0 (not_lt.mp hx) (h (x0, f0) List.mem_cons_self)
+      (fun q hq => h q (List.mem_cons_of_mem _ hq))
+
+/-- left of the first sample: `fp[0]` -/
+theorem npInterp_left (x0 f0 : K) (rest : List (K × K)) (x : K) (h : x < x0) : npInterp x0 f0 rest x = f0 := by
+  unfold npInterp; rw [if_pos h]
+
+/-- right of all samples the walk returns the last value -/
+theorem interpGo_last (x : K) : ∀ (rest : List (K × K)) (x0 f0 : K), (∀ q ∈ rest, q.1 ≤ x) →
+    interpGo x x0 f0 rest = (((x0, f0) :: rest).getLast (List.cons_ne_nil _ _)).2 := by
+  intro rest
+  induction rest with
+  | nil => intro x0 f0 _; simp [interpGo]
+  | cons q rest ih =>
+    intro x0 f0 h
+    obtain ⟨x1, f1⟩ := q
+    have : ¬ x < x1 := not_lt.2 (h (x1, f1) List.mem_cons_self)
+    simp only [interpGo, this, if_false]
+    rw [ih x1 f1 (fun q hq => h q (List.mem_cons_of_mem _ hq))]
+    simp [List.getLast_cons]
+
+/-- from the last sample on: `fp[-1]` -/
+theorem npInterp_right (x0 f0 : K) (rest : List (K × K)) (x : K) (h : ∀ q ∈ (x0, f0) :: rest, q.1 ≤ x) :
+    npInterp x0 f0 rest x = (((x0, f0) :: rest).getLast (List.cons_ne_nil _ _)).2 := by
+  unfold npInterp
+  rw [if_neg (not_lt.mpr (h (x0, f0) List.mem_cons_self))]
+  exact interpGo_last x rest x0 f0 (fun q hq => h q (List.mem_cons_of_mem _ hq))
+
+theorem zipWith_mem_imp {β γ δ : Type} (g : β → γ → δ) (P : δ → Prop) :
+    ∀ (l1 : List β) (l2 : List γ), (∀ a, ∀ b ∈ l2, P (g a b)) → ∀ v ∈ List.zipWith g l1 l2, P v := by
+  intro l1
+  induction l1 with
+  | nil => intro l2 _ v hv; simp at hv
+  | cons a l1 ih =>
+    intro l2 h v hv
+    cases l2 with
+    | nil => simp at hv
+    | cons b l2 =>
+      simp only [List.zipWith_cons_cons, List.mem_cons] at hv
+      rcases hv with rfl | hv
+      · exact h a b (by simp)
+      · exact ih l2 (fun a b hb => h a b (List.mem_cons_of_mem _ hb)) v hv
+
+theorem weightsOf_length (ld : List K) (x0 f0 : K) (rest : List (K × K)) (w : List K) (h : ld.length = w.length) :
+    (weightsOf ld x0 f0 rest w).length = w.length := by
+  simp [weightsOf, h]
+
+/-- the weights are a pixel-by-pixel product: reversing the pixel order reverses them -/
+theorem weightsOf_reverse (ld : List K) (x0 f0 : K) (rest : List (K × K)) (w : List K) (h : ld.length = w.length) :
+    weightsOf ld.reverse x0 f0 rest w.reverse = (weightsOf ld x0 f0 rest w).reverse := by
+  unfold weightsOf
+  rw [List.reverse_zipWith h]
+
+/-- the band mean does not depend on the order in which the pixels are stored -/
+theorem filterMean_reverse (r f : List K) (h : f.length = r.length) :
+    filterMean r.reverse f.reverse = filterMean r f := by
+  rw [filterMean_eq, filterMean_eq, ← List.reverse_zipWith h, List.sum_reverse, List.sum_reverse]
+
+theorem reshapeLike_map (g : K → K) : ∀ img : List (List K),
+    reshapeLike img (img.flatten.map g) = img.map (List.map g)
+  | [] => rfl
+  | row :: rows => by
+    simp only [reshapeLike, List.flatten_cons, List.map_append, List.map_cons]
+    rw [List.take_left' (by simp), List.drop_left' (by simp), reshapeLike_map g rows]
+
+/-- `v ↦ v / fact v` is strictly increasing on `[2000, ∞)` -/
+theorem vactoair_mono_aux {x y : K} (hx : 2000 ≤ x) (hxy : x < y) : x / fact x < y / fact y := by
+  have hx0 : 0 < x := by linarith
+  obtain ⟨fx, _⟩ := fact_bounds hx
+  obtain ⟨fy, _⟩ := fact_bounds (le_trans hx hxy.le)
+  have hd : 0 < y - x := by linarith
+  have exy : |x - y| = y - x := by rw [abs_sub_comm]; exact abs_of_pos hd
+  have hl := fact_lip hx le_rfl hxy.le
+  rw [exy] at hl
+  have h1 : fact y - fact x ≤ 578 / (x * x * x) * (y - x) := by
+    have := neg_abs_le (fact x - fact y); linarith
+  have hc : x * (578 / (x * x * x)) ≤ 1 / 2 := by
+    have e : x * (578 / (x * x * x)) = 578 / (x * x) := by field_simp
+    rw [e, div_le_iff₀ (by positivity)]; nlinarith
+  have h2 : x * (fact y - fact x) ≤ x * (578 / (x * x * x)) * (y - x) := by
+    have := mul_le_mul_of_nonneg_left h1 hx0.le
+    linarith
+  have h3 : x * (578 / (x * x * x)) * (y - x) ≤ 1 / 2 * (y - x) := mul_le_mul_of_nonneg_right hc hd.le
+  have h4 : 0 < (y - x) * (fact x - 1) := mul_pos hd (by linarith)
+  rw [div_lt_div_iff₀ (by linarith) (by linarith)]
+  nlinarith
+
+/-- `a ↦ a · fact (a · fact a)` (the two fixed-point iterations) is strictly increasing on `[2000, ∞)` -/
+theorem airtovac_mono_aux {x y : K} (hx : 2000 ≤ x) (hxy : x < y) :
+    x * fact (x * fact x) < y * fact (y * fact y) := by
+  have hx0 : 0 < x := by linarith
+  have hy : 2000 ≤ y := by linarith
+  obtain ⟨fx, fx'⟩ := fact_bounds hx
+  obtain ⟨fy, fy'⟩ := fact_bounds hy
+  have hp : x ≤ x * fact x := by nlinarith
+  have hq : x ≤ y * fact y := by nlinarith
+  obtain ⟨gx, _⟩ := fact_bounds (le_trans hx hp)
+  obtain ⟨gy, _⟩ := fact_bounds (le_trans hx hq)
+  have hd : 0 < y - x := by linarith
+  have exy : |x - y| = y - x := by rw [abs_sub_comm]; exact abs_of_pos hd
+  have l1 := fact_lip hx le_rfl hxy.le
+  rw [exy] at l1
+  have l2 := fact_lip hx hp hq
+  have hc : x * (578 / (x * x * x)) ≤ 1 / 4 := by
+    have e : x * (578 / (x * x * x)) = 578 / (x * x) := by field_simp
+    rw [e, div_le_iff₀ (by positivity)]; nlinarith
+  have hpq : |x * fact x - y * fact y| ≤ 2 * (y - x) := by
+    have e : x * fact x - y * fact y = x * (fact x - fact y) + (x - y) * fact y := by ring
+    have a1 : x * |fact x - fact y| ≤ x * (578 / (x * x * x)) * (y - x) := by
+      have := mul_le_mul_of_nonneg_left l1 hx0.le
+      linarith
+    have a2 : x * (578 / (x * x * x)) * (y - x) ≤ 1 / 4 * (y - x) := mul_le_mul_of_nonneg_right hc hd.le
+    have a3 : (y - x) * fact y ≤ (y - x) * (1 + 325 / 1000000) := mul_le_mul_of_nonneg_left fy' hd.le
+    calc |x * fact x - y * fact y| = |x * (fact x - fact y) + (x - y) * fact y| := by rw [e]
+      _ ≤ |x * (fact x - fact y)| + |(x - y) * fact y| := abs_add_le _ _
+      _ = x * |fact x - fact y| + (y - x) * fact y := by
+          rw [abs_mul, abs_mul, abs_of_pos hx0, exy, abs_of_pos (by linarith : 0 < fact y)]
+      _ ≤ 2 * (y - x) := by nlinarith
+  have b1 : x * |fact (x * fact x) - fact (y * fact y)| ≤ 1 / 2 * (y - x) := by
+    have hL : 0 ≤ 578 / (x * x * x) := by positivity
+    have := mul_le_mul_of_nonneg_left (le_trans l2 (mul_le_mul_of_nonneg_left hpq hL)) hx0.le
+    have a2 : x * (578 / (x * x * x)) * (2 * (y - x)) ≤ 1 / 4 * (2 * (y - x)) :=
+      mul_le_mul_of_nonneg_right hc (by linarith)
+    linarith
+  have b2 : -(x * |fact (x * fact x) - fact (y * fact y)|) ≤ x * (fact (y * fact y) - fact (x * fact x)) := by
+    have := neg_abs_le (fact (y * fact y) - fact (x * fact x))
+    rw [abs_sub_comm] at this
+    have := mul_le_mul_of_nonneg_left this hx0.le
+    linarith
+  have b3 : 0 < (y - x) * (fact (y * fact y) - 1) := mul_pos hd (by linarith)
+  nlinarith
+
 end
 end PydlVerif.C19
